@@ -103,7 +103,7 @@ fn inject(n: &mut Node, u: &mut Un, names: &mut Names, hidden: bool, vis: &mut V
             inject(inner, u, names, hidden, vis, hid);
         }
         Node::Hide(inner) => inject(inner, u, names, true, vis, hid),
-        Node::Pure(_) | Node::Fail(_) => {}
+        Node::Pure(_) | Node::Fail(_) | Node::Any(_) => {}
         Node::Seq(xs) | Node::Alt(xs) | Node::Adjacent(xs) => {
             for x in xs {
                 inject(x, u, names, hidden, vis, hid);
